@@ -384,6 +384,9 @@ def _render_fn_lines(p, fid, ctx, prelude):
     lines.append("    r = [%r, %d%s]" % (f["name"], f["const"], "".join(", " + n for n, _ in f["params"])))
     # a comprehension: its target is local to the function whatever the module defines under that name
     lines.append("    r.append([cv * 2 for cv in (1, 2)])")
+    if f.get("comp_twin"):
+        # ... here the target carries the name of a module variable that the function reads as well
+        lines.append("    r.append([%s * 3 for %s in (1, 2)])" % ((ctx.var_expr(f["comp_twin"], "bare"),) * 2))
     if f.get("reads_setvar") and p.get("setvar") and p["setvar"]["module"] == f["module"]:
         # a module variable of a type whose iteration order depends on the interpreter's hash seed (never edited)
         lines.append("    r.append(sorted(%s))" % p["setvar"]["name"])
@@ -460,6 +463,10 @@ def _render_fn_lines(p, fid, ctx, prelude):
                     # a same-named parameter of the inner function; the enclosing function hands the module variable over
                     params.append(ve)
                     callargs = ve
+                elif form == "local_twin":
+                    # the inner function has a local variable of its own that carries the name of the module variable
+                    # (which the enclosing function reads as well)
+                    extra = ", len(%s)" % ve
             if s.get("fn"):
                 fe = ctx.fn_expr(s["fn"], need_bare=bool(form))
                 extra += ", %s()" % fe
@@ -469,6 +476,8 @@ def _render_fn_lines(p, fid, ctx, prelude):
                 lines.append("    inner%d = lambda %s: (\"inner\", %d%s)" % (i, ", ".join(params), s["const"], extra))
             else:
                 lines.append("    def inner%d(%s):" % (i, ", ".join(params)))
+                if form == "local_twin" and s.get("var"):
+                    lines.append("        %s = (\"local to inner\", %d)" % (ctx.var_expr(s["var"], "bare"), s["const"]))
                 lines.append("        return (\"inner\", %d%s)" % (s["const"], extra))
             lines.append("    x%d = inner%d(%s)" % (i, i, callargs))
         elif k == "nested_eval":
